@@ -197,6 +197,7 @@ func (e *Engine) discharge1(o *Obligation, dir string, idx int, timeoutS int, se
 	}
 	var all []solveResult
 	var win *solveResult
+	winFile := "" // the reduced script the winning answer was obtained on (shallow / focused stages)
 	// stage 1: the fastest solver alone with a short limit (decides the bulk of the obligations)
 	{
 		quick := 2
@@ -233,6 +234,7 @@ func (e *Engine) discharge1(o *Obligation, dir string, idx int, timeoutS int, se
 			r.solver += " (shallow)"
 			all = append(all, r)
 			win = &r
+			winFile = f
 		}
 	}
 	// stage 1c: relevance-filtered hypothesis sets (in the manner of the MePo filter): facts most of whose sub-terms
@@ -253,6 +255,7 @@ func (e *Engine) discharge1(o *Obligation, dir string, idx int, timeoutS int, se
 				r.solver += " (focused)"
 				all = append(all, r)
 				win = &r
+				winFile = f
 				break
 			}
 		}
@@ -323,7 +326,15 @@ func (e *Engine) discharge1(o *Obligation, dir string, idx int, timeoutS int, se
 		if strings.HasPrefix(win.solver, "cvc5") {
 			other = solvers[0]
 		}
-		r := runSolver(context.Background(), other, write(other), 8, seed)
+		cf := write(other)
+		if winFile != "" {
+			// the answer came from a reduced problem: the second opinion is asked on the same reduced problem
+			if data, err := os.ReadFile(winFile); err == nil {
+				cf = strings.TrimSuffix(winFile, ".smt2") + "-" + other.name + ".smt2"
+				os.WriteFile(cf, []byte(other.pre+string(data)), 0o644)
+			}
+		}
+		r := runSolver(context.Background(), other, cf, 8, seed)
 		switch r.status {
 		case "unsat":
 			o.CrossChecked = "confirmed by " + other.name
